@@ -81,3 +81,24 @@ func uninlineStorableIfNeeded(storage SlabStorage, storable Storable) (Storable,
 
 	return storable, emptyValueID, false, nil
 }
+
+// isStorableOfValue returns true if storable is the (inlined or referenced) storable
+// of the array or map held by value, i.e. both identify the same container.
+func isStorableOfValue(storable Storable, value Value) bool {
+	unwrappedValue, _ := unwrapValue(value)
+
+	v, ok := unwrappedValue.(mutableValueNotifier)
+	if !ok {
+		return false
+	}
+
+	switch s := unwrapStorable(storable).(type) {
+	case SlabIDStorable:
+		return v.ValueID().equal(SlabID(s))
+
+	case Slab:
+		return v.ValueID().equal(s.SlabID())
+	}
+
+	return false
+}
